@@ -8,7 +8,7 @@ from common import *
 from gast import *
 
 E2, E3, S_, S2_ = TAdt("E2"), TAdt("E3"), TAdt("S"), TAdt("S2")
-MB, ME = TAdt("M", BOOL), TAdt("M", E2)
+MB, ME, MU = TAdt("M", BOOL), TAdt("M", E2), TAdt("M", UNIT)
 
 
 def gty(t):
@@ -19,10 +19,12 @@ def gty(t):
         return INT32
     if k == "str":
         return STRING
+    if k == "unit":
+        return UNIT
     if k == "tuple":
         return TTuple(*[gty(x) for x in t["ts"]])
     if k == "enum":
-        return {"E2": E2, "E3": E3, "M_bool": MB, "M_E2": ME}[t["n"]]
+        return {"E2": E2, "E3": E3, "M_bool": MB, "M_E2": ME, "M_unit": MU}[t["n"]]
     if k == "struct":
         return S2_ if t["n"] == "S2" else S_
     raise ValueError(k)
@@ -31,7 +33,8 @@ def gty(t):
 VARIANTS = {"E2": [("P", []), ("Q", [{"k": "bool"}])],
             "E3": [("A", []), ("B", [{"k": "bool"}]), ("C", [{"k": "bool"}, {"k": "enum", "n": "E2"}])],
             "M_bool": [("None", []), ("Some", [{"k": "bool"}])],
-            "M_E2": [("None", []), ("Some", [{"k": "enum", "n": "E2"}])]}
+            "M_E2": [("None", []), ("Some", [{"k": "enum", "n": "E2"}])],
+            "M_unit": [("None", []), ("Some", [{"k": "unit"}])]}
 FIELDS_OF = {"S": [("x", {"k": "bool"}), ("y", {"k": "enum", "n": "E2"})], "S2": [("p", {"k": "bool"}), ("q", {"k": "bool"})]}
 SCRUT = {"bb": {"k": "tuple", "ts": [{"k": "bool"}, {"k": "bool"}]}, "e3": {"k": "enum", "n": "E3"},
          "e2b": {"k": "tuple", "ts": [{"k": "enum", "n": "E2"}, {"k": "bool"}]}, "i": {"k": "int"},
@@ -40,7 +43,9 @@ SCRUT = {"bb": {"k": "tuple", "ts": [{"k": "bool"}, {"k": "bool"}]}, "e3": {"k":
          "st2": {"k": "struct", "n": "S2"}, "st2b": {"k": "tuple", "ts": [{"k": "struct", "n": "S2"}, {"k": "bool"}]},
          "mb": {"k": "enum", "n": "M_bool"}, "me": {"k": "enum", "n": "M_E2"},
          "bbb": {"k": "tuple", "ts": [{"k": "tuple", "ts": [{"k": "bool"}, {"k": "bool"}]}, {"k": "bool"}]},
-         "e3e2": {"k": "tuple", "ts": [{"k": "enum", "n": "E3"}, {"k": "enum", "n": "E2"}]}}
+         "e3e2": {"k": "tuple", "ts": [{"k": "enum", "n": "E3"}, {"k": "enum", "n": "E2"}]},
+         "ub": {"k": "tuple", "ts": [{"k": "unit"}, {"k": "bool"}]}, "mu": {"k": "enum", "n": "M_unit"},
+         "mub": {"k": "tuple", "ts": [{"k": "enum", "n": "M_unit"}, {"k": "bool"}]}}
 
 
 def variant_types(en, v):
@@ -62,6 +67,8 @@ def gpat(p, t, names):
         return PInt(p["v"])
     if k == "s":
         return PStr(p["v"])
+    if k == "u":
+        return PUnit
     if k == "t":
         return PTuple(*[gpat(q, t["ts"][i], names) for i, q in enumerate(p["ps"])])
     if k == "c":
@@ -84,6 +91,8 @@ def gval(v, t):
         return Int(v["v"])
     if k == "str":
         return Str(v["v"])
+    if k == "unit":
+        return Unit
     if k == "tuple":
         return Tuple(*[gval(x, t["ts"][i]) for i, x in enumerate(v["es"])])
     if k == "variant":
@@ -104,6 +113,8 @@ def shown(v, t):
         return str(v["v"])
     if k == "str":
         return v["v"]
+    if k == "unit":
+        return "()"
     if k == "tuple":
         return "(" + ",".join(shown(x, t["ts"][i]) for i, x in enumerate(v["es"])) + ")"
     if k == "variant":
@@ -115,7 +126,7 @@ def shown(v, t):
 
 def tname(t):
     k = t["k"]
-    if k in ("bool", "int", "str"):
+    if k in ("bool", "int", "str", "unit"):
         return k
     if k == "tuple":
         return "t_" + "_".join(tname(x) for x in t["ts"])
@@ -131,13 +142,15 @@ def show_expr(e, t, need):
         return Call("int32_to_string", e)
     if k == "str":
         return e
+    if k == "unit":
+        return Str("()")
     need.append(t)
     return Call("show_" + tname(t), e)
 
 
 def add_show_fn(p, t, done):
     n = tname(t)
-    if n in done or t["k"] in ("bool", "int", "str"):
+    if n in done or t["k"] in ("bool", "int", "str", "unit"):
         return
     done.add(n)
     need = []
@@ -289,6 +302,16 @@ def matrices(tier, seed_):
     if g.rc != 0:
         raise ToolError("MatchSem grid enumeration failed: " + (g.violated or g.error or g.stdout[-1500:]))
     grid = g.json_prints("MATRIX")
+    # the same over scrutinees with a unit column (the unit under a constructor, next to a bool): `()` rows, `_` rows, constructor rows
+    gu = run_tlc("MCMatchSem", "MatchSem_unitgrid.cfg", workers=4, xmx="6g", timeout=1200, name="matchsem-unitgrid")
+    if gu.rc != 0:
+        raise ToolError("MatchSem unit grid enumeration failed: " + (gu.violated or gu.error or gu.stdout[-1500:]))
+    ug = gu.json_prints("MATRIX")
+    if len(ug) < 100:
+        raise ToolError("MatchSem unit grid enumeration emitted too few matrices")
+    if tier == "quick":
+        ug = [m for j, m in enumerate(ug) if m["ty"] == "ub" or j % 2 == 0]
+    grid = grid + ug
     if len(grid) < 200:
         raise ToolError("MatchSem grid enumeration emitted too few matrices")
     seen = {json.dumps(m["rows"]) + m["ty"] for m in out}
